@@ -18,7 +18,7 @@ from checks import c02
 
 PID = 'C09'
 RULE = ("every unary form and every binary/compare operator (incl. Python ints on either side) over every ordered "
-        "operand-type pair of Bit/BitVector/Unsigned/Signed with widths 1..Wmax; for each operand valuation (all of "
+        "operand-type pair of Bit/BitVector/Unsigned/Signed with widths 1..Wmax (+ division family on 58..64 bit operands); for each operand valuation (all of "
         "them when the operands have <=10 bits, else 200 samples incl. corners) the direct Python-level result "
         "(type, width, value) is compared with the simulated run-time logic, and for up to 6 valuations per "
         "expression with the literal emitted after folding constants inside a traced context.  distinct_nontrivial "
